@@ -9,6 +9,7 @@ import (
 	govv1 "github.com/cosmos/cosmos-sdk/x/gov/types/v1"
 
 	sdkmath "cosmossdk.io/math"
+	upgradetypes "cosmossdk.io/x/upgrade/types"
 	ptypes "github.com/elys-network/elys/x/parameter/types"
 )
 
@@ -70,3 +71,68 @@ func proposalOutcomes(blk *BlockRecord) (passed, failed, rejected int) {
 	}
 	return
 }
+
+// ---- governance by users (transaction grammar)
+
+// genGovSubmit: any user files a proposal: text only, a message that will fail when executed (no upgrade is
+// scheduled), or a parameter update that re-submits a module's current parameters. The deposit is the minimum
+// (voting starts at once), or less (the proposal waits in its deposit period).
+func genGovSubmit(g *G) *Op {
+	u := g.User()
+	gov := GovAddr()
+	var inner []sdk.Msg
+	switch g.Int("gov/what", 0, 3) {
+	case 1:
+		inner = []sdk.Msg{&upgradetypes.MsgCancelUpgrade{Authority: gov}}
+	case 2, 3:
+		mod := []string{"amm", "perpetual", "leveragelp", "stablestake", "masterchef", "tradeshield"}[g.Pick("gov/mod", 6)]
+		if g.H != nil {
+			if e := GenParamChangeFor(g.H, g, mod); e != nil {
+				var m sdk.Msg
+				if err := g.W.App.AppCodec().UnmarshalInterfaceJSON([]byte(e.Args["msg"]), &m); err == nil {
+					inner = []sdk.Msg{m}
+				}
+			}
+		}
+	}
+	dep := int64(GovMinDeposit)
+	if g.Int("gov/lowdep", 0, 4) == 0 {
+		dep = int64(g.Int("gov/dep", 1, GovMinDeposit-1))
+	}
+	m, err := govv1.NewMsgSubmitProposal(inner, sdk.NewCoins(sdk.NewCoin(ptypes.Elys, sdkmath.NewInt(dep))), u.Addr.String(), "", "user proposal", "generated", false)
+	if err != nil {
+		return nil
+	}
+	return &Op{Signer: u, Kind: "gov.submit", Msg: m}
+}
+
+// genGovVote: a user votes on one of the most recent proposals – whatever it has staked (the ante handler demands a
+// minimum stake of voters) and whatever the proposal's state.
+func genGovVote(g *G) *Op {
+	u := g.User()
+	next, err := g.W.App.GovKeeper.ProposalID.Peek(g.W.ReadCtx())
+	if err != nil || next <= 1 {
+		return nil
+	}
+	back := uint64(g.Int("gov/voteback", 1, 3))
+	if back >= next {
+		back = next - 1
+	}
+	opt := []govv1.VoteOption{govv1.OptionYes, govv1.OptionYes, govv1.OptionNo, govv1.OptionAbstain, govv1.OptionNoWithVeto}[g.Pick("gov/opt", 5)]
+	return &Op{Signer: u, Kind: "gov.vote", Msg: govv1.NewMsgVote(u.Addr, next-back, opt, "")}
+}
+
+// genGovDeposit: a user adds to the deposit of a recent proposal.
+func genGovDeposit(g *G) *Op {
+	u := g.User()
+	next, err := g.W.App.GovKeeper.ProposalID.Peek(g.W.ReadCtx())
+	if err != nil || next <= 1 {
+		return nil
+	}
+	back := uint64(g.Int("gov/depback", 1, 3))
+	if back >= next {
+		back = next - 1
+	}
+	return &Op{Signer: u, Kind: "gov.deposit", Msg: govv1.NewMsgDeposit(u.Addr, next-back, sdk.NewCoins(sdk.NewCoin(ptypes.Elys, sdkmath.NewInt(int64(g.Int("gov/depamt", 1, 2*GovMinDeposit))))))}
+}
+
